@@ -132,7 +132,7 @@ impl DhtHandler {
                 // return `None`.
                 let token = token.unwrap();
                 #[cfg(btdht_verif)]
-                self.verif_step_begin("timer", format!("{token:?}"));
+                self.verif_step_begin("timer", token.verif_desc());
                 self.handle_timeout(token).await
             }
             command = self.command_rx.recv() => {
